@@ -201,8 +201,8 @@ func c06Check(c hostileCase) error {
 	for _, cp := range []bool{true, false} {
 		var pa, pb *simdjson.ParsedJson
 		var ea, eb error
-		pa, ea = parseWithND(parseCfg{true, cp}, append([]byte(nil), c.In...), c.ND)
-		pb, eb = parseWithND(parseCfg{false, cp}, append([]byte(nil), c.In...), c.ND)
+		pa, ea = parseWithND(parseCfg{avx512: true, copy: cp}, append([]byte(nil), c.In...), c.ND)
+		pb, eb = parseWithND(parseCfg{avx512: false, copy: cp}, append([]byte(nil), c.In...), c.ND)
 		if (ea == nil) != (eb == nil) {
 			return fmt.Errorf("[copy=%v nd=%v] AVX-512 kernel: err=%v; AVX2 kernel: err=%v\ninput: %q", cp, c.ND, ea, eb, clip(c.In))
 		}
